@@ -196,9 +196,9 @@ MORE = {
     "C01": "Also: evaluator error discipline — in each of the ~150 reachable Result-returning functions under rules:: a callee's Err leads to an Err return on every path (one reviewed conversion: NotComparable in each_lhs_compare). An empty selection gives SKIP under every unary operator, both operator polarities and both prefix polarities (except the documented empty-on-variable case).",
     "C02": "Also: every delegating RecordTracer::end_record hands the incoming record on unchanged; the one rewriting wrapper keeps name and status and rewrites only the called rule's record. The rewriting wrapper rebuilds a RuleCheck only on the path where its name was compared with the called rule's and found equal.",
     "C03": "Also: the side over which a negated query-vs-query comparison recomputes its difference, as a table over (operator, rhs.len()>=lhs.len()).",
-    "C05": "Also: chrono::Local (process time zone) is an ambient source.",
+    "C05": "Also: chrono::Local (process time zone) is an ambient source. A hash iteration that is only collected into a Vec which is sorted before any other use is discharged on the CFG (the sort dominates every other use).",
     "C07": "Also: no PASS/FAIL entry is ever removed from the summary table's section maps (only the reviewed SKIP clean-up). SARIF turns each message of a failing clause into exactly one result (fold read as a loop; one push per element).",
-    "C08": "Also: reviewed table rows whose reason relates two sites are re-decided (split(P)[1] only under contains(P) of the same constant), and positive controls on a fixture crate for every construct family and for cycle detection. The receiver of TestResult::insert_test_case (which ends in unreachable!() for Err) is the Ok variant on every path of every caller; every regex is built with the engine's default backtracking budget.",
+    "C08": "Also: reviewed table rows whose reason relates two sites are re-decided (split(P)[1] only under contains(P) of the same constant), and positive controls on a fixture crate for every construct family and for cycle detection. The receiver of TestResult::insert_test_case (which ends in unreachable!() for Err) is the Ok variant on every path of every caller; every regex is built with the engine's default backtracking budget. Discharge rule G: args[position - c] in a closure / private helper of a built-in's call, position a literal at every call site and 0 <= position - c < arity.",
     "C09": "Also: the fold in get_rule_info pushes every rules file that was read exactly once; Validate::execute never removes entries from the collected file lists. FileReport::combine extends each bucket with the whole bucket of the same name of the other report (no filtered or cross-wired sequence); the structured evaluator's two folds collect every parsed rules file and every data file exactly once.",
     "C11": "Also: path-sensitive decision table of all three tag decision points (expanded iff the tag is in SINGLE_VALUE_FUNC_REF or SEQUENCE_VALUE_FUNC_REF, whatever the payload kind); a genuine loader disagreement was found and repaired. An entry point that reads one text as JSON and as YAML tries the second format on every path on which the first parse failed.",
     "C12": "Also: the per-data-file JUnit counters are initialised inside the loop over the data files. The discovery loops of Validate::execute skip a found file only for not being a regular file or lacking a supported extension, and walk_dir drops no entries (shared with C17).",
